@@ -3121,6 +3121,9 @@ func strToInt32(s unistring.String) (int32, bool) {
 	neg := s[0] == '-'
 	if neg {
 		s = s[1:]
+		if s == "" {
+			return -1, false
+		}
 	}
 	l := len(s)
 	if s[0] == '0' {
@@ -3178,6 +3181,9 @@ func strToInt64(s unistring.String) (int64, bool) {
 	neg := s[0] == '-'
 	if neg {
 		s = s[1:]
+		if s == "" {
+			return -1, false
+		}
 	}
 	l := len(s)
 	if s[0] == '0' {
